@@ -439,7 +439,7 @@ func ruleValidatorsAgree(c *Ctx) {
 		}
 	}
 	// consumers: pike code outside package config that parses a config field leniently
-	parsers := map[string]bool{"time.ParseDuration": true, "github.com/dustin/go-humanize.ParseBytes": true, "regexp.Compile": true, "strings.Split": true, "net/url.Parse": true, "strconv.Atoi": true}
+	parsers := map[string]bool{"time.ParseDuration": true, "github.com/dustin/go-humanize.ParseBytes": true, "regexp.Compile": true, "strings.Split": true, "strings.SplitN": true, "strings.Cut": true, "net/url.Parse": true, "strconv.Atoi": true}
 	consumers := 0
 	for _, f := range c.P.allFuncs {
 		if inPkg(f, "config") {
@@ -460,8 +460,13 @@ func ruleValidatorsAgree(c *Ctx) {
 				p := ci.Common().StaticCallee().String()
 				okV := false
 				// a separator check can be written with any of the strings functions that find it
+				// (Split and Count see every separator; SplitN(…, 2), Cut, Index only the first, so a
+				// validator built on those accepts "a:b:c" while a consumer that splits fully drops it)
 				same := []string{p}
 				if p == "strings.Split" {
+					same = []string{"strings.Split", "strings.Count"}
+				}
+				if p == "strings.SplitN" || p == "strings.Cut" || p == "strings.Index" {
 					same = []string{"strings.Split", "strings.SplitN", "strings.Count", "strings.Cut", "strings.Index", "strings.IndexByte", "strings.Contains"}
 				}
 				for _, tag := range fieldTags[fv] {
@@ -532,6 +537,33 @@ func configFieldOf(v ssa.Value, d int) *types.Var {
 		for i, p := range fn.Params {
 			if p == x {
 				idx = i
+			}
+		}
+		if fn.Parent() == nil && idx >= 0 && fn.Pkg != nil {
+			// a package-level helper: look at its static call sites in the package
+			var hosts []*ssa.Function
+			var addFn func(f *ssa.Function)
+			addFn = func(f *ssa.Function) {
+				hosts = append(hosts, f)
+				for _, an := range f.AnonFuncs {
+					addFn(an)
+				}
+			}
+			for _, m := range fn.Pkg.Members {
+				if f, ok := m.(*ssa.Function); ok {
+					addFn(f)
+				}
+			}
+			for _, h := range hosts {
+				for _, b := range h.Blocks {
+					for _, in := range b.Instrs {
+						if ci, ok := in.(ssa.CallInstruction); ok && ci.Common().StaticCallee() == fn && idx < len(ci.Common().Args) {
+							if f := configFieldOf(ci.Common().Args[idx], d+1); f != nil {
+								return f
+							}
+						}
+					}
+				}
 			}
 		}
 		if fn.Parent() != nil && idx >= 0 {
